@@ -49,6 +49,18 @@ def cases(rng, tier):
             e = C.Case("enc_packets", [k * t, t, 1, 1, 1, 4] + data)
             e.tag = "encode"
             cs.append(e)
+    # receptions made only of heavy repair symbols on the largest block sizes that still use the dense back-end by
+    # default: the first phase inactivates far more than 64 columns, so the dense matrix's packed sub-rows span
+    # several words (in every build, on both back-ends through the threshold variants below)
+    tsizes = [r[0] for r in C.repo_table2()[0] if 150 <= r[0] < 250]
+    for k in ([tsizes[-1]] if tier == "quick" else tsizes[-3:]):
+        for dmin in (3, 4):
+            esis = CG.heavy_esis(rng, k, dmin, rng.choice([0, 1, 2]))
+            if esis is None:
+                continue
+            b = CG.sbd_case(rng, k, 1, 1, 1, 0, [esis[:-1], esis[-1:]], CG.rand_data(rng, k))
+            b.tag = "block"
+            cs.append(b)
     return cs
 
 
